@@ -15,6 +15,7 @@ func init() {
 			"AF-SET: By builds a fresh by-set = L ∩ receiver's by-set, never returns the receiver; forEach visibility table; PV-FRESH on Without's clone",
 			"CH-SIB: every aggregator's Reset stores only zero values (zero value == reset state); batchApplier resets, applies each point once",
 			"PV-WHOLE: the assembled result of topk/bottomk/sort is never cut after the per-group selection",
+			"PV-FRESH per-step group tables; PV-NUM: no aggregator accumulates the raw square of its input",
 		},
 		NotDecided: []string{"aggregate arithmetic (Welford, NaN handling)", "final ordering for ties", "container/heap correctness"},
 		Rules: func(r *Run) {
